@@ -113,6 +113,9 @@ func checkClient(c clientCase) error {
 			secret = append([]byte("y"), secret...)
 		case "norequestmac":
 			useMAC = nil
+		case "unknownkey-emptysecret":
+			t.KeyName = append(ref.Labels{[]byte("no")}, keyL...)
+			secret = nil
 		}
 		var reply []byte
 		if variant == "unsigned" {
@@ -174,7 +177,7 @@ func genClient(t *rapid.T) clientCase {
 		}
 		s.Question = s.Question[:1]
 		c.Queries = append(c.Queries, s)
-		c.Reply = append(c.Reply, rapid.SampledFrom([]string{"good", "good", "good", "tampered", "norequestmac", "late", "wrongsecret", "unsigned"}).Draw(t, "reply"))
+		c.Reply = append(c.Reply, rapid.SampledFrom([]string{"good", "good", "good", "tampered", "norequestmac", "late", "wrongsecret", "unknownkey-emptysecret", "unsigned"}).Draw(t, "reply"))
 	}
 	c.Key = rapid.IntRange(0, len(e2eKeys)-1).Draw(t, "key")
 	c.Fudge = rapid.Uint16Range(300, 65535).Draw(t, "fudge")
